@@ -220,6 +220,13 @@ func DrawSpec(r *gen.Rand, maxFiles int) Spec {
 		o.Categories = gen.AllCategories()
 	case 1:
 		o.Categories = []string{ach.CategoryForward, ach.CategoryReturn}
+	case 2:
+		// entries of every category next to each other, in a small SEC set: every kind of addenda record (02, 05, 98,
+		// refused 98, 99, dishonored, contested) takes part in the line budget of the merge
+		if r.Chance(1, 2) {
+			o.Categories = gen.AllCategories()
+			o.SECs = [][]string{{"COR"}, {"COR", "PPD"}, {"COR", "CTX", "POS"}, {"CTX", "POS", "MTE"}}[r.Intn(4)]
+		}
 	}
 	switch r.Intn(5) {
 	case 0:
